@@ -960,11 +960,12 @@ pub fn tnv(out: &mut Vec<u8>, tag: u8, name: &[u8], val: &[u8]) {
     out.extend_from_slice(val);
 }
 
-pub const FAMILIES: [&str; 31] = [
+pub const FAMILIES: [&str; 34] = [
     "nest", "nest-noname", "set-width", "attr-count", "group-count", "member-count", "value-len", "name-len", "unterminated", "endcoll-flood",
     "member-flood", "addl-no-attr", "coll-set", "nest-multi", "name-invalid-utf8", "value-invalid-utf8", "member-count-desc", "member-count-shuffled",
     "attr-count-desc", "wide-then-many", "set-width-mixed", "member-width-mixed", "set-width-strings", "attr-same-name", "attr-few-names",
     "set-width-novalue", "member-same-name", "value-len-text", "value-len-keyword", "value-len-withlang", "groups-late-op",
+    "attr-count-caps", "attr-count-charset", "member-count-caps",
 ];
 
 /// input family `fam` with about `n` bytes of attribute data
@@ -1090,6 +1091,34 @@ pub fn family(fam: &str, n: usize) -> Vec<u8> {
                 let name = format!("a{i:07}");
                 tnv(&mut v, 0x21, name.as_bytes(), &[0, 0, 0, 1]);
             }
+        }
+        // many attributes whose names are not the usual lower-case keywords: ASCII capitals in every name / names cycling through
+        // capitals, digits first, '_', '.', non-ASCII letters and a lossy (invalid UTF-8) octet - code that treats names by content
+        // (case folding, normalisation, validation with a slow path) must stay linear on them too
+        "attr-count-caps" | "attr-count-charset" => {
+            for i in 0..(n / 18) {
+                let mut name: Vec<u8> = if fam == "attr-count-caps" {
+                    format!("X-Attr{i:07}").into_bytes()
+                } else {
+                    let pre: &[u8] = [&b"Zq"[..], b"9.", b"_x", "\u{e9}".as_bytes(), b"\xff", b"a-", "\u{4e2d}".as_bytes(), b"~ "][i % 8];
+                    let mut v = pre.to_vec();
+                    v.extend_from_slice(format!("{i:07}").as_bytes());
+                    v
+                };
+                if i % 5 == 0 {
+                    name.push(b'Q');
+                }
+                tnv(&mut v, 0x21, &name, &[0, 0, 0, 1]);
+            }
+        }
+        "member-count-caps" => {
+            tnv(&mut v, 0x34, b"c", b"");
+            for i in 0..(n / 26) {
+                let name = format!("Mem-{i:07}");
+                tnv(&mut v, 0x4a, b"", name.as_bytes());
+                tnv(&mut v, 0x21, b"", &[0, 0, 0, 1]);
+            }
+            tnv(&mut v, 0x37, b"", b"");
         }
         "group-count" => {
             for i in 0..(n / 2) {
